@@ -464,6 +464,14 @@ class RankEnv:
         x, y = models.batch(self.plan['model'], self.plan['data_seed'], it,
                             vr, micro)
         out = models.forward(model, self.plan['model'], x)
+        if model is self.model and getattr(self, '_nested_eval', None) == it:
+            # an eval-mode probe BETWEEN this micro-batch's forward pass and
+            # its backward pass (validation on a held-out batch while the
+            # training graph is alive): the pending backward pass must still
+            # contribute its output gradients to G
+            self._nested_eval = None
+            self._eval_probe(it)
+            self.sim.probe('eval_pass_between_forward_and_backward')
         gain = self.plan.get('loss_gain', 1.0)
         loss = models.loss_fn(out, y, gain) / acc
         if zero:
@@ -517,7 +525,10 @@ class RankEnv:
         for vr in vranks:
             for micro in range(acc):
                 if op.get('mid_eval') == micro and not self.emulate:
-                    self._eval_probe(it)
+                    if op.get('mid_eval_nested'):
+                        self._nested_eval = it
+                    else:
+                        self._eval_probe(it)
                 if scaling:
                     # a callable scaler may change at any time: every
                     # micro-batch runs under its own loss scale and is
@@ -843,6 +854,11 @@ class RankEnv:
     def op_sched(self, op: dict[str, Any], rec: dict[str, Any]) -> None:
         if self.sched_obj is None:
             return
+        if op.get('val_first'):
+            # the epoch structure of the repository's examples: train,
+            # validate in eval mode, then step the K-FAC scheduler
+            self.op_eval({'op': 'eval', 'it': 2000 + self.pre.steps}, {})
+            self.sim.probe('eval_pass_before_scheduler_step')
         if self.mon.get('read_hps'):
             # logging the hyper-parameters right after step() and before the
             # scheduler moves them is as legal as reading them anywhere else
